@@ -251,7 +251,13 @@ pub fn seq_oracle(c: &SeqCase) -> Verdict {
     // failed operations: acceptable only for what the format cannot carry
     for (op, r) in c.ops.iter().zip(&out.results) {
         if let Err(e) = r {
-            let too_many_atoms = e.contains("too many atoms") && negotiated_header;
+            let mut atoms = vec![];
+            let (wc, wp) = expected_control(op);
+            for v in wc.iter().flatten().chain(wp.iter()) {
+                refmodel::dist::atoms_of(v, &mut atoms);
+            }
+            // (the control tuple adds at most a handful of atoms the model does not spell out)
+            let too_many_atoms = e.contains("too many atoms") && negotiated_header && atoms.len() + 6 > 255;
             if !too_many_atoms && !e.contains("too large") {
                 vfail!("operation-failed-on-connected-connection", "{:?} failed: {e}", op);
             }
@@ -419,7 +425,8 @@ fn op_strategy() -> impl Strategy<Value = SendOp> {
         prop_oneof![
             14 => arb_value(GenCfg { depth: 3, size: 12, heavy: false, ..GenCfg::std() }),
             // more distinct atoms than a distribution header can reference (fails in header mode only)
-            1 => (256usize..320).prop_map(|n| Value::list((0..n).map(|i| Value::atom(&format!("atom_{i}"))).collect())),
+            // (around the limit of 255: the control tuple's own atoms count too)
+            1 => prop_oneof![248usize..262, 256usize..320].prop_map(|n| Value::list((0..n).map(|i| Value::atom(&format!("atom_{i}"))).collect())),
             // an atom no encoding can carry (fails in both modes)
             1 => Just(Value::Tuple(vec![Value::int(1), Value::Atom("x".repeat(65536))])),
         ]
